@@ -983,6 +983,16 @@ def c16(tier, replay_file=None):
             rp = json.load(open(replay_file))
             if rp.get("engine") == "E3-device-list-e2e":
                 return c16_e2e(res, wd, [rp["case"]], replay_file)
+            if rp.get("engine") == "E3-supervisor":
+                out = supervisor_runs(res, exe, wd, "quick", replay_case=rp["case"])
+                if res.tool_errors:
+                    log("TOOL-ERROR: " + res.tool_errors[0])
+                    return 2
+                if out.get("bad"):
+                    log("VIOLATION property=C16 replay=%s clause=%s" % (replay_file, ",".join(out["bad"][0][1])))
+                    return 1
+                log("replay: C16 holds on the --auto-all-keyboards path for this schedule with the current tree")
+                return 0
             cases = cases[:nkinds] + [dict(rp["case"], id=nkinds + 1)]
             write_ndjson(cpath, cases)
         log("[tlc] DevGen: %d cases over %d entry kinds, %.1fs" % (len(cases), nkinds, time.time() - t0))
@@ -1029,11 +1039,197 @@ def c16(tier, replay_file=None):
             "exhaustive": True,
         }
         res.coverage.update(e2e)
+        if not res.tool_errors:
+            res.coverage.update(supervisor_runs(res, exe, wd, tier))
         res.assumptions = ["the finite universe of device names and exclude patterns of DevList.tla, with glob matching given extensionally there",
                            "which entries are keyboard-like is the tool's own heuristic (compared with DevList!Keyboardish as DRIFT only)"]
     except ToolError as e:
         res.tool_errors.append(str(e))
     return res.finish()
+
+
+# ------------------------------------------------------------------ C16 on the third discovery path, and the supervisor (growth beyond the listed properties)
+
+SV_FULL = "402000000 3803078f800d001 feffffdfffefffff fffffffffffffffe"
+SV_MOUSE = "1f0000 402000000 3803078f800d001 feffffdfffefffff fffffffffffffffe"
+# (id, name, sysfs, EV, KEY, event number); k* come and go (selectable keyboards), the others are in the list all the time and must never be opened
+SV_UNIVERSE = [("k0", "Kbd Zero", "/devices/pci0000:00/usb1/1-2/input/input7", "120013", SV_FULL, 0),
+               ("k1", "Kbd One", "/devices/pci0000:00/usb1/1-3/input/input8", "120013", SV_FULL, 1),
+               ("x", "Excluded Kbd", "/devices/pci0000:00/usb1/1-4/input/input9", "120013", SV_FULL, 2),
+               ("m", "GXT 4155 Gaming Mouse", "/devices/pci0000:00/usb1/1-1/input/input12", "17", SV_MOUSE, 3),
+               ("v", "totalmapper", "/devices/virtual/input/input20", "100013", SV_FULL, 4)]
+
+
+def sv_entry(name, sysfs, ev, key):
+    return ('I: Bus=0003 Vendor=0001 Product=0001 Version=0110\nN: Name="%s"\nP: Phys=usb-0000:00:14.0-1/input0\nS: Sysfs=%s\nU: Uniq=\n'
+            'H: Handlers=sysrq kbd event0 leds \nB: PROP=0\nB: EV=%s\nB: KEY=%s\nB: MSC=10\n\n' % (name, sysfs, ev, key))
+
+
+def sv_namespace(d):
+    """fabricated /sys/devices and device list for one recorder process; returns (devs, always)"""
+    import shutil
+    shutil.rmtree(d, ignore_errors=True)
+    os.makedirs(os.path.join(d, "sys"))
+    devs, always = [], ""
+    for id_, name, sysfs, ev, key, n in SV_UNIVERSE:
+        ed = os.path.join(d, "sys", sysfs.lstrip("/").replace("devices/", "", 1), "event%d" % n)
+        os.makedirs(ed, exist_ok=True)
+        open(os.path.join(ed, "uevent"), "w").write("MAJOR=13\nMINOR=%d\nDEVNAME=input/event%d\n" % (64 + n, n))
+        if id_.startswith("k"):
+            devs.append({"id": id_, "node": "/dev/input/event%d" % n, "entry": sv_entry(name, sysfs, ev, key)})
+        else:
+            always += sv_entry(name, sysfs, ev, key)
+    open(os.path.join(d, "devices"), "w").write("")
+    return devs, always
+
+
+def sv_record(exe, d, cases):
+    """runs `tmv supervise` on the cases inside a mount namespace of its own; returns the trace path"""
+    import subprocess
+    devs, always = sv_namespace(d)
+    cp = os.path.join(d, "cases.ndjson")
+    write_ndjson(cp, [dict(c, devs=devs, always=always, excludes=["Excl*"], devices_file=os.path.join(d, "devices")) for c in cases])
+    tp = os.path.join(d, "trace.ndjson")
+    setup = "mount --bind %s/devices /proc/bus/input/devices && mount --bind %s/sys /sys/devices && mount -t tmpfs tmpfs /dev && mkdir -p /dev/input && " % (d, d)
+    with open(tp, "w") as out:
+        p = subprocess.Popen(["unshare", "-m", "sh", "-c", setup + "exec %s supervise %s" % (exe, cp)], stdout=out, stderr=subprocess.PIPE)
+    return p, tp
+
+
+def supervisor_runs(res, exe, wd, tier, replay_case=None):
+    """`remap --auto-all-keyboards`: the real supervisor (do_remapping_loop_auto_all_devices) with its real inotify watch, the real list_keyboards and
+    flag_excluded on a fabricated /proc and /sys, the real open_device and the real worker threads, in a mount namespace; only the device nodes are
+    scripted. TLC checks the design (spec/Supervisor.tla: invariants with the environment acting at every point of a round; three expectations it must
+    REFUTE, recorded as observations), enumerates the serialised behaviours as schedules, and validates the recorded calls of every run against
+    spec/SupervisorTrace.tla. C16-auto-... clauses are C16 on this discovery path; SV-... clauses are auxiliary (AUX lines), never a VIOLATION."""
+    import subprocess, shutil
+    ok, why = namespaces_available()
+    if not ok:
+        res.notes.append("supervisor runs skipped: cannot create a mount namespace here (%s)" % why)
+        return {"supervisor_runs": 0}
+    t0 = time.time()
+    sd = os.path.join(wd, "sv")
+    shutil.rmtree(sd, ignore_errors=True)
+    os.makedirs(sd)
+    with open(os.path.join(sd, "SVG.tla"), "w") as f:
+        f.write('---- MODULE SVG ----\nEXTENDS Supervisor\nMCDyn == <<"k0", "k1">>\n====\n')
+    consts = "CONSTANTS\n  Dyn <- MCDyn\n  MaxRounds = %d\n  MaxPerStep = %d\n  MaxFail = 1\n  Serial = %s\n  Emit = %s\n"
+    invs = ["TypeOK", "OneWorkerPerPath", "OneRunningPerDevice", "RunningHoldsGrab", "StopsOnlyOnListFailure"]
+    evid = {}
+    if replay_case is None:
+        # (1) the design, environment unrestricted
+        with open(os.path.join(sd, "SVD.cfg"), "w") as f:
+            f.write("SPECIFICATION Spec\n" + consts % (2 if tier == "quick" else 3, 2, "FALSE", "FALSE") + "".join("INVARIANT %s\n" % i for i in invs) + "CHECK_DEADLOCK FALSE\n")
+        dsg = TlcRun(sd, "SVG.tla", "SVD.cfg", name="SVD", workers=4, mem="4g", timeout=1800).run()
+        if dsg.invariant_violated() or dsg.other_error():
+            res.tool_errors.append("Supervisor.tla (design): %s" % (dsg.invariant_violated() or dsg.other_error()))
+            return {}
+        # (2) what the design does NOT give: each must be refuted
+        reach = {}
+        for inv in ("NoDeadKeyboard", "ReopenNeverBusy", "WaitingMeansAllMapped"):
+            with open(os.path.join(sd, "SVR_%s.cfg" % inv), "w") as f:
+                f.write("SPECIFICATION Spec\n" + consts % (3, 2, "TRUE", "FALSE") + "INVARIANT %s\nCHECK_DEADLOCK FALSE\n" % inv)
+            r = TlcRun(sd, "SVG.tla", "SVR_%s.cfg" % inv, name="SVR_" + inv, workers=1, mem="2g", timeout=600).run()
+            reach[inv] = bool(r.invariant_violated())
+        evid.update({"supervisor_design_states": dsg.counts()[1], "supervisor_design_observations_refuted_by_TLC": reach})
+        # (3) schedules
+        with open(os.path.join(sd, "SVS.cfg"), "w") as f:
+            f.write("SPECIFICATION Spec\n" + consts % (3, 2, "TRUE", "TRUE") + "".join("INVARIANT %s\n" % i for i in invs + ["RoundIsComplete", "EmitSchedule"]) + "CHECK_DEADLOCK FALSE\n")
+        g = TlcRun(sd, "SVG.tla", "SVS.cfg", name="SVS", workers=4, mem="4g", timeout=1800).run()
+        if g.invariant_violated() or g.other_error():
+            res.tool_errors.append("Supervisor.tla (schedules): %s" % (g.invariant_violated() or g.other_error()))
+            return {}
+        import e2
+        scheds = e2.schedules_of(g)
+        if not scheds:
+            res.tool_errors.append("Supervisor.tla printed no schedule")
+            return {}
+        scheds.sort(key=lambda s: json.dumps(s, sort_keys=True))
+        want = 320 if tier == "quick" else 6000
+        stepn = max(1, len(scheds) // want)
+        sel = scheds[::stepn][:want]
+        # hand-written: what the enumeration bounds do not reach (four rounds; a failure after a re-plug; both keyboards failing to open first)
+        L = lambda a, d="", x="": {"a": a, "d": d, "x": x}
+        sel += [[[L("appear", "k0", "ok")], [L("appear", "k1", "bad")], [L("fixperm", "k1"), L("end", "k0", "err")], [L("touch")], [L("vanish", "k1"), L("end", "k1", "ok"), L("appear", "k1", "ok")]],
+                [[L("appear", "k0", "bad"), L("appear", "k1", "bad")], [L("fixperm", "k1")], [L("fixperm", "k0")], [L("vanish", "k0"), L("end", "k0", "ok"), L("touch")], [L("appear", "k0", "ok")]],
+                [[L("appear", "k1", "ok")], [L("appear", "k0", "ok")], [L("end", "k1", "err"), L("vanish", "k1"), L("appear", "k1", "ok")], [L("end", "k1", "err"), L("touch")], [L("touch")]]]
+        cases = [{"id": "SV-%d" % i, "sched": s} for i, s in enumerate(sel)]
+        evid.update({"supervisor_schedule_model_states": g.counts()[1], "supervisor_schedules_enumerated": len(scheds)})
+    else:
+        cases = [replay_case]
+    nchunks = max(1, min(PROCS, len(cases) // 20 or 1))
+    procs = []
+    for i in range(nchunks):
+        procs.append(sv_record(exe, os.path.join(sd, "ns%d" % i), cases[i::nchunks]))
+    traces = []
+    for p, tp in procs:
+        try:
+            _, err = p.communicate(timeout=900)
+        except subprocess.TimeoutExpired:
+            p.kill()
+            res.tool_errors.append("tmv supervise did not finish within 900 s")
+            return {}
+        if p.returncode != 0:
+            res.tool_errors.append("tmv supervise exited with %s: %s" % (p.returncode, (err or b"").decode("utf-8", "replace")[-400:]))
+            return {}
+        traces.append(tp)
+    with open(os.path.join(sd, "SVT.tla"), "w") as f:
+        f.write("---- MODULE SVT ----\nEXTENDS SupervisorTrace\n====\n")
+    with open(os.path.join(sd, "SVT.cfg"), "w") as f:
+        f.write("SPECIFICATION Spec\nPOSTCONDITION Accepted\nCHECK_DEADLOCK FALSE\n")
+    truns = [TlcRun(sd, "SVT.tla", "SVT.cfg", env={"TRACE": t}, name="svt%d" % i, deque=True, mem="2g", timeout=1200) for i, t in enumerate(traces)]
+    run_tlc_many(truns)
+    regs = [0] * 8
+    allbad = []
+    for r in truns:
+        err = r.other_error()
+        acc = r.printed("SV-ACCEPTED")
+        if err or not acc:
+            res.tool_errors.append("%s: %s" % (r.name, err or "no acceptance line"))
+            continue
+        v = parse_tla_value(acc[0])
+        if v[1] != v[2]:
+            res.tool_errors.append("%s: supervisor trace not consumed: %d of %d lines" % (r.name, v[1], v[2]))
+        regs = [a + b for a, b in zip(regs, v[3])]
+        for line in r.printed("SV-BAD"):
+            pv = parse_tla_value(line)
+            allbad.append((pv[1], sorted(pv[2])))
+    env = [(t, c) for t, cl in allbad for c in cl if c.startswith("ENV-")]
+    if env:
+        res.tool_errors.append("the recorder's supervisor environment misbehaved: %s" % env[:3])
+    by_id = {c["id"]: c for c in cases}
+    aux, c16bad = {}, []
+    for t, cl in allbad:
+        mine = [c for c in cl if c.startswith("C16-")]
+        if mine:
+            c16bad.append((t, mine))
+        for c in cl:
+            if c.startswith("SV-"):
+                aux.setdefault(c, []).append(t)
+    for c, ts in sorted(aux.items()):
+        log("AUX: supervisor (not a listed property): %s in %d runs, e.g. %s" % (c, len(ts), ts[0]))
+    log("[supervisor] %d runs of the real do_remapping_loop_auto_all_devices in mount namespaces: %d rounds, %d open attempts, %d workers started, %d ended, %d re-opens answered EBUSY "
+        "(the dead worker's descriptor still holds the grab), %d runs returned on the list failure; C16 clauses failing in %d runs, auxiliary clauses in %d; %.1fs"
+        % (regs[0], regs[1], regs[2], regs[3], regs[4], regs[5], regs[7], len(c16bad), sum(len(t) for t in aux.values()), time.time() - t0))
+    if replay_case is not None:
+        return {"bad": c16bad}
+    if not res.tool_errors and (regs[3] == 0 or regs[4] == 0 or regs[5] == 0 or regs[6] == 0 or regs[7] != regs[0]):
+        res.tool_errors.append("vacuous supervisor runs: registers %s" % regs)
+    for t, cl in c16bad[:5]:
+        res.violation(",".join(cl), {"engine": "E3-supervisor", "case": by_id.get(t)})
+    if len(c16bad) > 5:
+        res.more_violations += len(c16bad) - 5
+    evid.update({"supervisor_runs": regs[0], "supervisor_rounds": regs[1], "supervisor_open_attempts": regs[2], "supervisor_workers_started": regs[3],
+                 "supervisor_workers_ended": regs[4], "supervisor_reopens_answered_EBUSY": regs[5], "supervisor_auxiliary_clauses_failing": {c: len(t) for c, t in aux.items()},
+                 "supervisor_how": "the real do_remapping_loop_auto_all_devices under unshare -m (real inotify on a tmpfs /dev/input, real list_keyboards / flag_excluded on a fabricated "
+                                   "device list and /sys/devices, real open_device and worker threads; device nodes scripted: open, EVIOCGKEY, EVIOCGRAB held until close, uinput set-up, "
+                                   "ENODEV / EIO to end a worker), schedules enumerated by TLC from spec/Supervisor.tla, every recorded call validated against spec/SupervisorTrace.tla",
+                 "supervisor_note": "auxiliary except the C16-auto clauses: the supervisor is not one of the listed properties. Supervisor.tla documents what it gives (one worker per path, a "
+                                    "worker's failure or a failing open never stops the others or the round) and what it does not (observations, each refuted by TLC and seen on the real code): a "
+                                    "worker that fails on a device that stays plugged in leaves the device grabbed by a descriptor nobody closes, so every re-open fails with EBUSY and the "
+                                    "keyboard is dead until the process exits; unplugging is not watched (no IN_DELETE), so a finished worker is only reaped, and its device re-opened, at the "
+                                    "next CREATE/ATTRIB event in /dev/input"})
+    return evid
 
 
 def build_real_binary():
